@@ -584,7 +584,7 @@ class SpatialInertia(SMUserList):
         """
         if not isinstance(right, SpatialInertia):
             raise TypeError('can only add spatial inertia to spatial inertia')
-        return SpatialInertia(left.I + left.I)
+        return SpatialInertia(left.A + right.A)
 
     def __mul__(left, right):  # lgtm[py/not-named-self] pylint: disable=no-self-argument
         """
